@@ -42,6 +42,12 @@ type bundleCase struct {
 	PriorOS   string `json:"prior_os,omitempty"`
 	PriorArch string `json:"prior_arch,omitempty"`
 	HasPrior  bool   `json:"has_prior,omitempty"`
+	// ExeKind / LibKind select the bundle-file-kind leg: what the path
+	// <location>/mutagen-agents.tar.gz is in the executable directory and in
+	// ../libexec: absent | regular | symlink (to a regular bundle elsewhere) |
+	// dangling (symlink to nothing) | directory. FHS bin layout, started directly.
+	ExeKind string `json:"exe_kind,omitempty"`
+	LibKind string `json:"lib_kind,omitempty"`
 	// Custom selects the entry-name leg: a single bundle next to the executable
 	// (FHS bin layout, started directly) whose archive holds exactly Entries, in
 	// this order, each with its own distinct payload.
@@ -60,7 +66,43 @@ func (c bundleCase) customShard() int {
 	return h % customShards
 }
 
+// kinds reports whether c belongs to the bundle-file-kind leg.
+func (c bundleCase) kinds() bool { return c.ExeKind != "" || c.LibKind != "" }
+
+// resolveKinds applies the documented search order to the bundle-file kinds: the
+// first location (executable directory, then libexec) whose bundle path leads to
+// a regular bundle file, directly or through a symbolic link, is the one used
+// ("the first location holding a bundle is the one used"; a symlink to a bundle
+// IS a bundle there). An absent path or a dangling link holds no bundle.
+// dirFirst reports that a DIRECTORY of that name was met before a bundle was
+// found: the statement is silent on that (the unchanged code aborts with "is not
+// a file"), so both an error and treating it as holding no bundle are accepted.
+func (c bundleCase) resolveKinds() (used string, dirFirst bool) {
+	for _, lk := range [][2]string{{"exe", c.ExeKind}, {"libexec", c.LibKind}} {
+		switch lk[1] {
+		case "regular", "symlink":
+			return lk[0], dirFirst
+		case "directory":
+			dirFirst = true
+		}
+	}
+	return "", dirFirst
+}
+
+// asLoc rewrites a kinds case into the equivalent plain-layout case.
+func (c bundleCase) asLoc() bundleCase {
+	used, _ := c.resolveKinds()
+	c.Loc, c.Dir = "neither", "bin"
+	if used != "" {
+		c.Loc = used
+	}
+	return c
+}
+
 func (c bundleCase) layoutKey() string {
+	if c.kinds() {
+		return "kinds"
+	}
 	if c.Custom {
 		// all custom bundles of a shard are served by one child; the parent
 		// rewrites the bundle file before each request
@@ -69,6 +111,9 @@ func (c bundleCase) layoutKey() string {
 	return fmt.Sprintf("loc=%s;symlink=%v;dir=%s;reverse=%v", c.Loc, c.Symlink, c.Dir, c.Reverse)
 }
 func (c bundleCase) key() string {
+	if c.kinds() {
+		return fmt.Sprintf("kinds;exe=%s;libexec=%s;platform=%s_%s;out=%v", c.ExeKind, c.LibKind, c.GOOS, c.GOARCH, c.Out)
+	}
 	if c.Custom {
 		return fmt.Sprintf("custom;entries=%s;platform=%s_%s;out=%v", strings.Join(c.Entries, ","), c.GOOS, c.GOARCH, c.Out)
 	}
@@ -169,6 +214,44 @@ func writeCustomBundle(path string, entries []string) error {
 	return os.Rename(path+".new", path)
 }
 
+// setBundleKind makes <dir>/mutagen-agents.tar.gz of the given kind; where names
+// the payload set ("exe" / "libexec"), store is a directory outside both
+// locations that holds symlink targets.
+func setBundleKind(dir, where, kind, store string) error {
+	path := filepath.Join(dir, agent.BundleName)
+	if err := os.RemoveAll(path); err != nil {
+		return err
+	}
+	switch kind {
+	case "absent":
+		return nil
+	case "regular":
+		return writeBundle(path, where, false)
+	case "symlink":
+		target := filepath.Join(store, where+"-real-bundle.tar.gz")
+		if err := writeBundle(target, where, false); err != nil {
+			return err
+		}
+		if where == "libexec" {
+			// a relative link for one location, an absolute one for the other
+			rel, err := filepath.Rel(dir, target)
+			if err != nil {
+				return err
+			}
+			return os.Symlink(rel, path)
+		}
+		return os.Symlink(target, path)
+	case "dangling":
+		return os.Symlink(filepath.Join(store, where+"-no-such-bundle.tar.gz"), path)
+	case "directory":
+		if err := os.Mkdir(path, 0o700); err != nil {
+			return err
+		}
+		return os.WriteFile(filepath.Join(path, "x"), []byte("not a bundle"), 0o600)
+	}
+	return fmt.Errorf("unknown bundle kind %q", kind)
+}
+
 // bundleRequest / bundleReply are the parent <-> child protocol (one JSON line each).
 type bundleRequest struct {
 	GOOS, GOARCH, Out string
@@ -237,7 +320,7 @@ type bundleLayout struct {
 // startLayout builds <root>/<dir>/agentcheck (a hard link / copy of this test
 // binary), the bundles, and starts the child from there.
 func startLayout(t *testing.T, scratch, exeCopy string, c bundleCase, seq int) (*bundleLayout, error) {
-	if c.Custom {
+	if c.Custom || c.kinds() {
 		c.Loc, c.Dir, c.Symlink = "custom", "bin", false
 	}
 	root := filepath.Join(scratch, fmt.Sprintf("layout%d", seq))
@@ -381,6 +464,12 @@ func expectedBody(c bundleCase) (body []byte, ok bool) {
 		}
 		return nil, false
 	}
+	if c.kinds() {
+		if _, dirFirst := c.resolveKinds(); dirFirst {
+			return nil, false
+		}
+		c = c.asLoc()
+	}
 	used := ""
 	switch {
 	case c.Loc == "exe" || c.Loc == "both":
@@ -447,6 +536,12 @@ func judgeBundle(c bundleCase, rep bundleReply) (what, class string) {
 			return fmt.Sprintf("extracted agent for %q from archive %v is not that entry's payload; it equals %s", name, c.Entries, src), "bad"
 		}
 		return "", "custom-present-extracted"
+	}
+	if c.kinds() {
+		if _, dirFirst := c.resolveKinds(); dirFirst && rep.Err != "" {
+			return "", "directory-candidate-aborts"
+		}
+		c = c.asLoc()
 	}
 	used := ""
 	switch {
@@ -619,6 +714,20 @@ func TestC46(t *testing.T) {
 			}
 			l.current = want
 		}
+		if want := "kinds:" + c.ExeKind + "/" + c.LibKind; c.kinds() && l.current != want {
+			store := filepath.Join(l.root, "store")
+			err := os.MkdirAll(store, 0o700)
+			if err == nil {
+				err = setBundleKind(filepath.Join(l.root, "prefix", "bin"), "exe", c.ExeKind, store)
+			}
+			if err == nil {
+				err = setBundleKind(filepath.Join(l.root, "prefix", "libexec"), "libexec", c.LibKind, store)
+			}
+			if err != nil {
+				t.Fatalf("INFRA: bundle kinds %s/%s: %v", c.ExeKind, c.LibKind, err)
+			}
+			l.current = want
+		}
 		rep, err := l.ask(c)
 		if err != nil {
 			t.Fatalf("INFRA: layout %s: %v", c.layoutKey(), err)
@@ -650,7 +759,7 @@ func TestC46(t *testing.T) {
 	if vr.Thorough() {
 		dirs = []string{"bin", "tools"}
 	}
-	r.Rule(fmt.Sprintf("the test binary is hard-linked into <tmp>/prefix/<dir>/ and re-executed as a child that calls the real agent.ExecutableForPlatform; layouts = bundle (tar.gz built by the harness) present in {neither, executable directory, ../libexec, both with DISTINCT payloads and different platform sets} x executable started directly / through a symlink in another directory x executable directory name %v x archive entry order {forward, reverse}; per layout every platform of %v x output {temporary file; explicit path whose prior state is absent / empty / shorter than the entry / same length other bytes / LONGER than the entry / longer and read-only; explicit path to which every other platform of the bundle in use was extracted immediately before}; non-trivial = at least one bundle exists. Entry-name leg: one bundle next to the executable whose archive holds every subset of an alphabet of prefix-related entry names (arm/arm64, ppc64/ppc64le, 3/38/386, linux/linuxx, arm64/arm64e, an entry with an extension, an entry without separator) in EVERY order with a distinct payload per entry, requested with every name, every proper prefix of a name that contains the separator, and every name extended by one character; non-trivial there = the archive holds an entry prefix-related to but different from the requested name. Distinct by (layout or archive, platform, output).", dirs, platforms))
+	r.Rule(fmt.Sprintf("the test binary is hard-linked into <tmp>/prefix/<dir>/ and re-executed as a child that calls the real agent.ExecutableForPlatform; layouts = bundle (tar.gz built by the harness) present in {neither, executable directory, ../libexec, both with DISTINCT payloads and different platform sets} x executable started directly / through a symlink in another directory x executable directory name %v x archive entry order {forward, reverse}; per layout every platform of %v x output {temporary file; explicit path whose prior state is absent / empty / shorter than the entry / same length other bytes / LONGER than the entry / longer and read-only; explicit path to which every other platform of the bundle in use was extracted immediately before}; non-trivial = at least one bundle exists. Entry-name leg: one bundle next to the executable whose archive holds every subset of an alphabet of prefix-related entry names (arm/arm64, ppc64/ppc64le, 3/38/386, linux/linuxx, arm64/arm64e, an entry with an extension, an entry without separator) in EVERY order with a distinct payload per entry, requested with every name, every proper prefix of a name that contains the separator, and every name extended by one character; non-trivial there = the archive holds an entry prefix-related to but different from the requested name. Bundle-file-kind leg: the bundle path in the executable directory x in ../libexec is each of {absent, regular file, symlink to a regular bundle stored elsewhere (absolute / relative link), dangling symlink, directory}, all 25 combinations x every platform; a symlinked bundle counts as a bundle of its location, absent and dangling hold none, a directory met first may abort or be skipped; non-trivial there = a link or directory is involved. Distinct by (layout or archive or kinds, platform, output).", dirs, platforms))
 	r.Assume("linux: os.Executable resolves the symlink the child was started through, so the executable's directory is the real one in both start modes",
 		"BundleLocationDefault (the production setting) only; the build-directory mode used by integration tests is not explored",
 		"for an executable outside an FHS bin directory with a bundle in ../libexec only, both rejection and use of the libexec bundle are accepted (the statement is silent; the code documents libexec as searched for bin layouts only)",
@@ -773,6 +882,34 @@ func TestC46(t *testing.T) {
 		}
 	})
 	r.Set("custom_bundles", len(customs))
+
+	// ---- bundle-file-kind leg: what the bundle path is, per location ----
+	bundleKinds := []string{"absent", "regular", "symlink", "dangling", "directory"}
+	for _, ek := range bundleKinds {
+		for _, lk := range bundleKinds {
+			for _, p := range platforms {
+				c := bundleCase{ExeKind: ek, LibKind: lk, GOOS: p.GOOS, GOARCH: p.GOARCH}
+				what, class, _ := runOne(c)
+				// non-trivial: a symlink, dangling link or directory is involved
+				special := (ek != "absent" && ek != "regular") || (lk != "absent" && lk != "regular")
+				r.Case(c.key(), special)
+				if class != "directory-candidate-aborts" {
+					switch used, _ := c.resolveKinds(); {
+					case used == "exe" && ek == "symlink", used == "libexec" && lk == "symlink":
+						class += "+via-symlinked-bundle"
+					case ek == "dangling" && used == "libexec":
+						class += "+after-dangling-link"
+					}
+				}
+				r.Outcome(class)
+				if what != "" {
+					r.Violate(c.key(), what, c, func() bool { w, _, _ := runOne(c); return w != "" })
+				}
+			}
+		}
+	}
+	r.Sample(bundleCase{ExeKind: "symlink", LibKind: "regular", GOOS: "linux", GOARCH: "amd64"})
+	r.Sample(bundleCase{ExeKind: "dangling", LibKind: "symlink", GOOS: "freebsd", GOARCH: "amd64"})
 	r.Sample(bundleCase{Custom: true, Entries: []string{"linux_arm64", "linux_arm"}, GOOS: "linux", GOARCH: "arm"})
 	r.Sample(bundleCase{Custom: true, Entries: []string{"linux_ppc64le", "linux_arm64"}, GOOS: "linux", GOARCH: "ppc64"})
 	r.Sample(bundleCase{Loc: "both", Symlink: false, Dir: "bin", GOOS: "linux", GOARCH: "amd64"})
